@@ -71,6 +71,8 @@ func (Engine) Generate(prop, tier string, seed, run uint64) json.RawMessage {
 	cfg.Faults = r.IntN(5) != 0
 	cfg.LongGaps = r.IntN(3) == 0
 	cfg.CoarseTick = true
+	cfg.Jumble = true
+	cfg.Chatty = true
 	spec := netsim.Gen(r, cfg)
 	nf := len(netsim.Build(spec).Files)
 	p := Plan{Prop: prop, Seed: seed, Net: *spec, SnapEvery: 100_000}
@@ -86,6 +88,8 @@ func (Engine) Generate(prop, tier string, seed, run uint64) json.RawMessage {
 			c.MaxConvs = 1 + r.IntN(6)
 			c.MaxFiles = 1 + r.IntN(3)
 			c.MaxPayload = 20_000
+			c.Chatty = true
+			c.Jumble = true
 			sp := netsim.Gen(r, c)
 			sp.Prefix = string(rune('a' + i))
 			p.Stacks = append(p.Stacks, *sp)
